@@ -4,6 +4,7 @@ From Coq Require Import List String NArith ZArith Bool.
 Import ListNotations.
 From GMQ Require Import Broker.Model Proofs.BrokerFrames Proofs.BrokerTags Proofs.BrokerChanInv Proofs.BrokerReady Proofs.BrokerRelease Proofs.BrokerDeliveryTag.
 Open Scope N_scope.
+From GMQ Require Import Broker.gen.BrokerGen.
 
 (* Every way a connection ends - connection.close, close-ok after a broker error, the socket vanishing after ANY prefix
    of the session - is the same teardown: *)
@@ -67,3 +68,9 @@ Example C14_example :
    R s' "q" = Some [1; 2] /\ R s' "mine" = None /\ get_conn s' 1 = None /\
    match get_queue s' "q" with Some qu => q_consumers qu = [] | None => False end).
 Proof. vm_compute. repeat split; reflexivity. Qed.
+
+(* a connection also ends by heartbeat timeout: in the model that is the socket-loss label; that the code arms the
+   timeout whenever a heartbeat was negotiated and renews the read deadline in its reader is read off /repo on every run *)
+Theorem C14_generated_dead_peer_detection : heartbeat_always_arms_timeout = true /\ reader_sets_read_deadline = true.
+Proof. split; reflexivity. Qed.
+Print Assumptions C14_generated_dead_peer_detection.
